@@ -1,6 +1,7 @@
 (** Proofs about Matcher.v. *)
 From Coq Require Import String.
 From Cvg Require Import Base Re Unicode Matcher.
+From Cvg.proofs Require Import ReProofs.
 Open Scope N_scope.
 
 (** IdentMatcher: equality, or Unicode simple-fold equality rune by rune. *)
@@ -53,4 +54,17 @@ Proof.
   revert m; induction qs as [|[i ex] qs IH]; intros m Hi V; simpl; [reflexivity|].
   destruct (pm_match_step m i ex Hi V) as (H1 & H2 & H3).
   rewrite H1. f_equal. rewrite IH; [now rewrite H3|assumption|now rewrite H3].
+Qed.
+
+(** Validity does not depend on the case rule: prefixing "(?i)" changes neither whether the
+    expression parses nor whether it is inside the modelled fragment (ReProofs.v) — for every
+    pattern whose parse under the exact rule does not exhaust the parser's fuel. *)
+Lemma validity_is_case_independent p :
+  parse_re UT (pattern_expr p true) <> PFuel -> validity_case_independent p.
+Proof.
+  intros Hn. unfold validity_case_independent, compile_pattern.
+  assert (E : pattern_expr p false = s2b "(?i)" ++ pattern_expr p true) by reflexivity.
+  rewrite E. pose proof (case_prefix_keeps_validity UT (pattern_expr p true) Hn) as H.
+  destruct (parse_re UT (pattern_expr p true)); destruct (parse_re UT (s2b "(?i)" ++ pattern_expr p true));
+    cbn [pclass] in H; try discriminate; split; congruence.
 Qed.
